@@ -28,7 +28,7 @@ type NestedOpt struct {
 	ExtraSigner bool   // the level-2 layout carries, in front of the delegate's signature, the signature of a key that is no functionary
 	// CoSub: the root's step b has threshold 2 and a second authorised functionary (ed6) who hands in the SAME
 	// level-2 layout (signed by him) with a directory of his own: both-complete | second-directory-missing |
-	// second-directory-without-links
+	// second-directory-without-links | second-directory-differs
 	CoSub string
 	Entry int // 0 InTotoVerify, 1 InTotoVerifyWithDirectory (not used by the builder)
 }
@@ -164,6 +164,16 @@ func (n *Nested) level(base string, l int, dir string, signer *K, stepNameForSum
 				}
 			case "second-directory-without-links":
 				os.MkdirAll(coDir, 0o755)
+			case "second-directory-differs":
+				// complete and validly signed, but its last step reports another product: the two summaries differ
+				if out, err := exec.Command("cp", "-r", subDir, coDir).CombinedOutput(); err != nil {
+					panic(string(out))
+				}
+				mats := xArt(l + 1)
+				if o.SingleStep {
+					mats = xArt(l)
+				}
+				DumpLink(coDir, "b", fb.ID, MustWrap(Link("b", mats, Arts("y", H(0xdd)), "make-y"), o.DSSE, fb.Full))
 			}
 		}
 	} else if single {
